@@ -205,6 +205,33 @@ impl PanicInfo {
   }
 }
 
+/// Cases completed so far in this process (all threads); read by the hang watchdog.
+pub static PROGRESS: std::sync::atomic::AtomicU64 = std::sync::atomic::AtomicU64::new(0);
+
+/// Watchdog: if no case completes for `VERIF_HANG_SECS` seconds (default 600) the run ends INCONCLUSIVE
+/// (exit 2) — a hang or a runaway loop in the code under test is never reported as a violation from here.
+pub fn start_watchdog(prop: &'static str) {
+  let limit: u64 = std::env::var("VERIF_HANG_SECS").ok().and_then(|s| s.parse().ok()).unwrap_or(600);
+  std::thread::spawn(move || {
+    let mut last = PROGRESS.load(Ordering::Relaxed);
+    let mut idle = 0u64;
+    loop {
+      std::thread::sleep(std::time::Duration::from_secs(5));
+      let now = PROGRESS.load(Ordering::Relaxed);
+      if now == last {
+        idle += 5;
+        if idle >= limit {
+          println!("INCONCLUSIVE property={prop} reason=watchdog: no case completed for {idle} s (hang in the code under test or in the harness)");
+          std::process::exit(2);
+        }
+      } else {
+        last = now;
+        idle = 0;
+      }
+    }
+  });
+}
+
 thread_local! {
   static LAST_PANIC: RefCell<Option<PanicInfo>> = const { RefCell::new(None) };
 }
@@ -279,6 +306,7 @@ impl Counters {
   }
 
   fn record<C: Serialize>(&mut self, sub: &str, case: &C, obs: &Obs<'_>) {
+    PROGRESS.fetch_add(1, Ordering::Relaxed);
     self.evaluations += 1;
     if let Some(r) = &obs.discard {
       *self.discards.entry(format!("{sub}:{r}")).or_default() += 1;
@@ -509,6 +537,8 @@ impl Ctx {
             .spawn_scoped(scope, move || {
               let counters = RefCell::new(Counters::default());
               let failed = RefCell::new(false);
+              // the first failing (unshrunk) case: reported if the shrunk one does not reproduce
+              let first_failure: RefCell<Option<(Viol, Value)>> = RefCell::new(None);
               let mut cfg = Config::default();
               cfg.cases = n;
               cfg.failure_persistence = None;
@@ -536,9 +566,10 @@ impl Ctx {
                 if !*failed.borrow() {
                   match &r {
                     Ok(()) => counters.borrow_mut().record(sub, &case, &obs),
-                    Err(_) => {
+                    Err(v) => {
                       counters.borrow_mut().evaluations += 1;
                       *failed.borrow_mut() = true;
+                      *first_failure.borrow_mut() = Some((v.clone(), serde_json::to_value(&case).unwrap_or(Value::Null)));
                       stop.store(true, Ordering::Relaxed);
                     }
                   }
@@ -564,7 +595,19 @@ impl Ctx {
                   };
                   match r {
                     Err(v) => found = Some((v, serde_json::to_value(&shrunk).unwrap_or(Value::Null))),
-                    Ok(()) => infra = Some(format!("{sub}: shrunk case no longer fails (flaky check?)")),
+                    Ok(()) => match first_failure.borrow_mut().take() {
+                      // report the original failing case unshrunk (the check may depend on something that is
+                      // not a function of the case, e.g. OS randomness inside the library)
+                      Some((v, case)) => {
+                        infra = Some(format!(
+                          "{sub}: shrunk case no longer fails (flaky check?); first failure was {}: {} case={}",
+                          v.sig,
+                          short(&v.detail, 400),
+                          short(&case.to_string(), 600)
+                        ))
+                      }
+                      None => infra = Some(format!("{sub}: shrunk case no longer fails (flaky check?)")),
+                    },
                   }
                 }
                 Err(TestError::Abort(reason)) => infra = Some(format!("{sub}: proptest aborted: {reason}")),
@@ -829,6 +872,7 @@ pub fn drive(def: &PropertyDef, tier: Tier, seed: u64, replay: Option<String>) -
     };
   }
 
+  start_watchdog(def.id);
   let mut ctx = Ctx::new(def.id, tier, seed);
   let known: Vec<KnownEntry> = load_known(&format!("{}/known_findings.txt", verif_root()))
     .into_iter()
